@@ -5,11 +5,10 @@ import PPProofs.Props.C11Heap
 #print axioms PP.PR.copy_same_answers
 #print axioms PP.PR.concat_is_merge
 #print axioms PP.PR.concat_assoc
-#print axioms PP.PR.concat_assoc_of_truthy
 #print axioms PP.PR.concat_empty_right
 #print axioms PP.PR.concat_empty_left
 #print axioms PP.PR.sum_is_fold
-#print axioms PP.PR.concat_assoc_fails_witness
+#print axioms PP.PR.concat_assoc_former_witness
 #print axioms PP.PRHeap.frame_step
 #print axioms PP.PRHeap.frame_all
 #print axioms PP.PRHeap.copy_frame
